@@ -3,17 +3,19 @@
 pub mod diff;
 pub mod http;
 pub mod iso;
+pub mod payload;
 pub mod seq;
 pub mod urgency;
 
 use crate::engine::{CheckResult, Fail, Report, Stats, Tier};
 use serde_json::Value;
 
-pub const ALL: &[&str] = &["C01", "C02", "C07", "C08", "C09", "C10", "C11", "C12", "C13", "C14", "C15", "C16", "C18", "C20"];
+pub const ALL: &[&str] = &["C01", "C02", "C06", "C07", "C08", "C09", "C10", "C11", "C12", "C13", "C14", "C15", "C16", "C18", "C20"];
 
 pub fn run(id: &str, tier: Tier, seed: u64) -> Option<Report> {
     match id {
         "C01" | "C02" | "C07" | "C08" | "C10" | "C11" | "C18" => Some(seq::run(id, tier, seed)),
+        "C06" => Some(payload::run(tier, seed)),
         "C09" => Some(iso::run(tier, seed)),
         "C12" => Some(urgency::run(tier, seed)),
         "C13" => Some(diff::run(tier, seed)),
@@ -25,6 +27,7 @@ pub fn run(id: &str, tier: Tier, seed: u64) -> Option<Report> {
 fn replay_case(prop: &str, kind: &str, case: &Value, st: &mut Stats) -> Option<CheckResult> {
     Some(match prop {
         "C01" | "C02" | "C07" | "C08" | "C10" | "C11" | "C18" => seq::replay(prop, kind, case, st),
+        "C06" => payload::replay(kind, case, st),
         "C09" => iso::replay(kind, case, st),
         "C12" => urgency::replay(kind, case, st),
         "C13" => diff::replay(kind, case, st),
